@@ -69,6 +69,22 @@ def gen_cases(rng, tier):
         if rng.random() < 0.35 and spec.get("inject") is None:
             spec["inject"] = rng.randrange(1, 200)
         yield spec
+    # simulator with a start delay and a scheduler that resumes paused trials: the criterion tends to hold while a resumed
+    # trial has not been picked up by its worker yet (stop_all has to end that trial, too)
+    k = 0
+    while k < (16 if tier == "quick" else 200):
+        spec = loop.gen_spec(rng, tier)
+        if spec["backend"] != "sim" or spec["scheduler"]["kind"] not in ("hb", "sync", "dehb", "pbt"):
+            continue
+        if spec["scheduler"]["kind"] == "hb":
+            spec["scheduler"]["type"] = "promotion"
+        spec["sim"]["d_start"] = rng.choice([2, 4, 8])
+        spec["sim"]["sleep"] = rng.choice([1, 2])
+        spec["sim"]["p_fail0"] = spec["sim"]["p_failk"] = 0.0
+        spec["criterion"] = {"max_num_evaluations": rng.randint(1, 10)}
+        spec["inject"] = None
+        k += 1
+        yield spec
     # the real LocalBackend with real worker processes that handle SIGTERM (monitor only): once the backend has stopped or paused
     # a trial, or stopped everything at the end, no worker process is left alive
     for _ in range(4 if tier == "quick" else 40):
